@@ -184,6 +184,16 @@ def evaluate(case):
             return {"violations": [], "evaluations": 0, "nontrivial": None, "outcome": "skipped_no_mount"}
     with C.Scratch(C.EXT4 if ext4 else None) as sc:
         C.make_tree(sc.tree, entries)
+        if ext4:
+            # ext4 allocates blocks lazily: until write-back a fresh file has no physical extent, and the order in which
+            # fclones visits files under the HDD pin (by physical location) could change between two runs on the same tree
+            for dp, dns, fns in os.walk(sc.tree):
+                for fn in fns:
+                    fd = os.open(os.path.join(dp, fn), os.O_RDONLY)
+                    try:
+                        os.fsync(fd)
+                    finally:
+                        os.close(fd)
         flt = case.get("filter", [])
         roots = ROOTS.get(case["tree"], ["r"])
         via_stdin = bool(case.get("stdin"))
@@ -342,7 +352,10 @@ def evaluate(case):
             # both the O_NOATIME open and its fall-back failed with ENOENT: this path is gone and was never read, so it
             # may not be listed (even if another link of the same file could be read)
             must_drop = set()
-            if k2 is not None and e == "ENOENT" and ev.call == "open":
+            # (not when the first failing open is the one made for the extent query - that open has no fall-back, and
+            # the next open of the same path is then the first of the two hashing opens, whose fall-back may succeed)
+            extent_open = k + 1 < len(events) and events[k + 1].call == "fiemap" and events[k + 1].path == ev.path
+            if k2 is not None and e == "ENOENT" and ev.call == "open" and not extent_open:
                 hit = [x for x in res["events"] if x.k == k2]
                 if hit and hit[0].call == "open" and hit[0].path == ev.path and hit[0].errno != 0:
                     must_drop = set(q for q in (ev.path, os.path.realpath(ev.path)) if q in ref_all["files"])
